@@ -78,6 +78,9 @@ type Obj struct {
 	Cert *x509.Certificate
 	CRL  *x509.RevocationList
 	OCSP *ocsp.Response
+	// Post, when set, is what a CALLER does to the parsed object before linting it (e.g. dropping an index the parser
+	// built); it is applied again to every fresh parse Reparse hands out.
+	Post func(*Obj)
 }
 
 // ParseObj parses der as kind; nil when the parser rejects it or panics
@@ -115,6 +118,10 @@ func ParseObj(kind corpus.Kind, name string, b []byte) (o *Obj, parserPanic bool
 // Reparse returns a fresh parse of the same bytes (distinct parsed object).
 func (o *Obj) Reparse() *Obj {
 	n, _ := ParseObj(o.Kind, o.Name, o.DER)
+	if n != nil && o.Post != nil {
+		n.Post = o.Post
+		o.Post(n)
+	}
 	return n
 }
 
